@@ -53,6 +53,10 @@ inductive Slot where
 structure ClassSpec where
   name : String          -- `cls.__name__`, used in error messages
   slots : List Slot
+  /-- `some k`: the class's `from_json` constructs the object and REGISTERS IT ITSELF (`dic[id_] = obj`,
+  after its own `if id_ in dic: raise`) once the first `k` slots are processed, and processes the remaining
+  slots afterwards — they may refer back to the object (FlexibleTimeTreeModel: `k = 1`, after `taxa`) -/
+  selfRegAfter : Option Nat := none
   deriving Repr
 
 /-- constructor signatures (after `self`) of the torch classes named in `distribution`/`transform` -/
@@ -115,39 +119,52 @@ def Err.innermost : Err → Err
 structure Cfg where
   checkBefore : Bool   -- `if id_ in dic: raise` before `from_json_safe`
   checkAfter : Bool    -- the same test again between `from_json_safe` and `dic[id_] = obj`
+  afterIsIdentity : Bool  -- … in the form `id_ in dic and dic[id_] is not obj` (F01b): an object that
+                          -- registered itself in its `from_json` is let through
   deriving Repr, DecidableEq
 
-/-- the repaired loader (fix F01) -/
-def Cfg.fixed : Cfg := ⟨true, true⟩
+/-- the repaired loader (fixes F01 + F01b) -/
+def Cfg.fixed : Cfg := ⟨true, true, true⟩
+/-- the loader with F01 only: every self-registering class is rejected (the regression F01b repairs) -/
+def Cfg.f01only : Cfg := ⟨true, true, false⟩
 /-- the loader as it was before F01 -/
-def Cfg.unfixed : Cfg := ⟨true, false⟩
+def Cfg.unfixed : Cfg := ⟨true, false, false⟩
 
 section
 variable {ν : Type}
 
-/-- `stem{a:b}`: looks up `stem+str(i)` for every `i` in `range(a, b)` and keeps the LAST (as
-coded); an empty range leaves `obj` unbound (UnboundLocalError) -/
-def resolveRange (s : String) (reg : List (String × Addr)) : Except Err Addr :=
+/-- `stem{a:b}` split into its parts (`none`: Python raises something that is not a parse error) -/
+def parseRangeRef (s : String) : Option (String × Int × Int) :=
   match s.splitOn "{" with
   | [stem, ix] =>
     match (ix.splitOn "}").head!.splitOn ":" with
     | [a, b] =>
       match a.toInt?, b.toInt? with
-      | some a, some b =>
-        let go := (List.range (b - a).toNat).foldl
-          (fun (acc : Except Err (Option Addr)) (i : Nat) => match acc with
-            | .error e => .error e
-            | .ok _ => match regLookup (stem ++ toString (a + (i : Int))) reg with
-              | some x => .ok (some x)
-              | none => .error (.notFound s))
-          (.ok none)
-        match go with
-        | .error e => .error e
-        | .ok (some x) => .ok x
-        | .ok none => .error .crash
-      | _, _ => .error .crash
-    | _ => .error .crash
-  | _ => .error .crash
+      | some a, some b => some (stem, a, b)
+      | _, _ => none
+    | _ => none
+  | _ => none
+
+/-- the loop `for i in range(a, b): obj = dic[stem + str(i)]` for a lookup function `g` -/
+def rangeFold (g : Nat → Option Addr) (s : String) (l : List Nat) (acc : Except Err (Option Addr)) :
+    Except Err (Option Addr) :=
+  l.foldl (fun (acc : Except Err (Option Addr)) (i : Nat) => match acc with
+    | .error e => .error e
+    | .ok _ => match g i with
+      | some x => .ok (some x)
+      | none => .error (.notFound s)) acc
+
+/-- `stem{a:b}`: looks up `stem+str(i)` for every `i` in `range(a, b)` and keeps the LAST (as
+coded); an empty range leaves `obj` unbound (UnboundLocalError) -/
+def resolveRange (s : String) (reg : List (String × Addr)) : Except Err Addr :=
+  match parseRangeRef s with
+  | none => .error .crash
+  | some (stem, a, b) =>
+    match rangeFold (fun i => regLookup (stem ++ toString (a + (i : Int))) reg) s
+        (List.range (b - a).toNat) (.ok none) with
+    | .error e => .error e
+    | .ok (some x) => .ok x
+    | .ok none => .error .crash
 
 /-- the string branch of `process_object`: `dic[data]`, or the range form when `"{" in data` -/
 def resolveRef (s : String) (reg : List (String × Addr)) : Except Err Addr :=
@@ -270,6 +287,60 @@ def slotKey : Slot → String
   | .firstOf _ => "firstOf"
   | .sub k _ _ => k
 
+/-- what `from_json_safe` makes of an exception raised in `from_json` -/
+def wrapErr (c : ClassSpec) (id : String) (e : Err) : Err :=
+  match e with
+  | .keyError k =>                      -- `except KeyError`: converted, not wrapped
+    if k = "id" then .missingId else .missingKey c.name id k
+  | _ => if e.isParse then .wrapped c.name id e else e
+
+/-- an ordinary class: `klass.from_json_safe(data, dic)`, then the test between construction and
+registration, then `dic[id_] = obj` -/
+def constructPlain (cfg : Cfg) (tbl : ClassTable) (f : Json ν → St → Except Err (Addr × St))
+    (c : ClassSpec) (id : String) (data : List (String × Json ν)) (st : St) : Except Err (Addr × St) :=
+  match processSlots tbl f c.name id data c.slots st with
+  | .error e => .error (wrapErr c id e)
+  | .ok (kids, st1) =>
+    -- the object was never put into `dic` by its from_json: `dic[id_] is not obj` is vacuous
+    if cfg.checkAfter && (regLookup id st1.reg).isSome then .error (.duplicate id) else
+    let a := st1.heap.length
+    .ok (a, { reg := regSet id a st1.reg,
+              heap := st1.heap ++ [⟨c.name, id, (c.slots.map slotKey).zip kids⟩] })
+
+/-- `id_ in dic [and dic[id_] is not obj]` for the object at address `a` -/
+def clash (cfg : Cfg) (a : Addr) : Option Addr → Bool
+  | some a' => if cfg.afterIsIdentity then a' != a else true
+  | none => false
+
+/-- a class whose `from_json` registers the object itself after its first `k` slots
+(FlexibleTimeTreeModel) -/
+def constructSelf (cfg : Cfg) (tbl : ClassTable) (f : Json ν → St → Except Err (Addr × St))
+    (c : ClassSpec) (k : Nat) (id : String) (data : List (String × Json ν)) (st : St) :
+    Except Err (Addr × St) :=
+  match processSlots tbl f c.name id data (c.slots.take k) st with
+  | .error e => .error (wrapErr c id e)
+  | .ok (kids1, st1) =>
+    -- its own `if id_ in dic: raise JSONParseError(...)`, wrapped by from_json_safe
+    if (regLookup id st1.reg).isSome then .error (.wrapped c.name id (.duplicate id)) else
+    let a := st1.heap.length
+    let keys := c.slots.map slotKey
+    let st1' : St := { reg := regSet id a st1.reg,
+                       heap := st1.heap ++ [⟨c.name, id, (keys.take k).zip kids1⟩] }
+    match processSlots tbl f c.name id data (c.slots.drop k) st1' with
+    | .error e => .error (wrapErr c id e)
+    | .ok (kids2, st2) =>
+      -- process_object's test between construction and registration
+      if cfg.checkAfter && clash cfg a (regLookup id st2.reg) then .error (.duplicate id) else
+      -- the object's remaining attributes were assigned (same object, same address)
+      .ok (a, { reg := regSet id a st2.reg,
+                heap := st2.heap.set a ⟨c.name, id, keys.zip (kids1 ++ kids2)⟩ })
+
+def constructObject (cfg : Cfg) (tbl : ClassTable) (f : Json ν → St → Except Err (Addr × St))
+    (c : ClassSpec) (id : String) (data : List (String × Json ν)) (st : St) : Except Err (Addr × St) :=
+  match c.selfRegAfter with
+  | none => constructPlain cfg tbl f c id data st
+  | some k => constructSelf cfg tbl f c k id data st
+
 /-- `process_object(data, dic)`.  Fuel bounds the nesting depth only (one unit per `from_json`
 level); `depth j < fuel` never runs out (see `fuel_enough`). -/
 def processObject (cfg : Cfg) (tbl : ClassTable) : Nat → Json ν → St → Except Err (Addr × St)
@@ -289,19 +360,7 @@ def processObject (cfg : Cfg) (tbl : ClassTable) : Nat → Json ν → St → Ex
         | some (str ty) =>
           (match tbl.find ty with
            | none => .error (.badClass id)
-           | some c =>
-             -- `klass.from_json_safe(data, dic)`
-             match processSlots tbl (processObject cfg tbl fuel) c.name id data c.slots st with
-             | .error e =>
-               (match e with
-                | .keyError k =>                      -- `except KeyError`: converted, not wrapped
-                  if k = "id" then .error .missingId else .error (.missingKey c.name id k)
-                | _ => if e.isParse then .error (.wrapped c.name id e) else .error e)
-             | .ok (kids, st1) =>
-               if cfg.checkAfter && (regLookup id st1.reg).isSome then .error (.duplicate id) else
-               let a := st1.heap.length
-               .ok (a, { reg := regSet id a st1.reg,
-                         heap := st1.heap ++ [⟨c.name, id, (c.slots.map slotKey).zip kids⟩] }))
+           | some c => constructObject cfg tbl (processObject cfg tbl fuel) c id data st)
         | some _ => .error .crash
       | some _ => .error .crash
     | _ => .error .notValid
@@ -348,24 +407,25 @@ def paramAlts : List (String × Bool) :=
 def classTable : ClassTable where
   classes :=
     [ -- generic classes the harness registers (harness/c13.py builds them from this very table)
-      ("VLeaf",  ⟨"VLeaf",  []⟩),
-      ("VOne",   ⟨"VOne",   [.one "x"]⟩),
-      ("VPair",  ⟨"VPair",  [.one "a", .one "b"]⟩),
-      ("VRev",   ⟨"VRev",   [.one "b", .one "a"]⟩),
-      ("VMany",  ⟨"VMany",  [.many "xs"]⟩),
-      ("VMix",   ⟨"VMix",   [.optMany "kids", .optOne "p", .one "q", .each "rs"]⟩),
-      ("VOpt",   ⟨"VOpt",   [.optOne "a", .optMany "bs", .optOne "c"]⟩),
-      ("pkg.mod.VLong", ⟨"VLeaf", []⟩),
+      ("VLeaf",  { name := "VLeaf", slots := [] }),
+      ("VOne",   { name := "VOne", slots := [.one "x"] }),
+      ("VPair",  { name := "VPair", slots := [.one "a", .one "b"] }),
+      ("VRev",   { name := "VRev", slots := [.one "b", .one "a"] }),
+      ("VMany",  { name := "VMany", slots := [.many "xs"] }),
+      ("VMix",   { name := "VMix", slots := [.optMany "kids", .optOne "p", .one "q", .each "rs"] }),
+      ("VOpt",   { name := "VOpt", slots := [.optOne "a", .optMany "bs", .optOne "c"] }),
+      ("pkg.mod.VLong", ⟨"VLeaf", [], none⟩),
+      ("VSelf",  ⟨"VSelf",  [.optOne "pre", .one "inner", .optMany "rest"], some 1⟩),
       -- real classes (key orders as in their from_json)
-      ("Parameter", ⟨"Parameter", [.firstOf paramAlts]⟩),
-      ("torchtree.core.parameter.Parameter", ⟨"Parameter", [.firstOf paramAlts]⟩),
-      ("ViewParameter", ⟨"ViewParameter", [.one "parameter", .need "indices"]⟩),
-      ("CatParameter", ⟨"CatParameter", [.many "parameters"]⟩),
+      ("Parameter", { name := "Parameter", slots := [.firstOf paramAlts] }),
+      ("torchtree.core.parameter.Parameter", { name := "Parameter", slots := [.firstOf paramAlts] }),
+      ("ViewParameter", { name := "ViewParameter", slots := [.one "parameter", .need "indices"] }),
+      ("CatParameter", { name := "CatParameter", slots := [.many "parameters"] }),
       ("TransformedParameter",
-        ⟨"TransformedParameter", [.need "transform", .sub "parameters" "transform" .transform, .many "x"]⟩),
+        { name := "TransformedParameter", slots := [.need "transform", .sub "parameters" "transform" .transform, .many "x"] }),
       ("Distribution",
-        ⟨"Distribution", [.need "distribution", .many "x", .sub "parameters" "distribution" .dist]⟩),
-      ("JointDistributionModel", ⟨"JointDistributionModel", [.each "distributions"]⟩) ]
+        { name := "Distribution", slots := [.need "distribution", .many "x", .sub "parameters" "distribution" .dist] }),
+      ("JointDistributionModel", { name := "JointDistributionModel", slots := [.each "distributions"] }) ]
   sigs :=
     [ ("torch.distributions.Normal", ["loc", "scale", "validate_args"]),
       ("torch.distributions.LogNormal", ["loc", "scale", "validate_args"]),
